@@ -480,6 +480,8 @@ def main(argv):
             rng = vsim.Rng(seed, "c17-damage", subjects[si]["file"], rt)
             for dmg in gen_damages(rng, subjects[si], tier):
                 cases.append((si, rt, dmg))
+        # a wall-clock budget must thin the cases evenly, not drop the subjects that come last
+        vsim.Rng(seed, "c17-order").shuffle(cases)
         budget = checklib.Budget(240 if tier == "quick" else 2400)
         results = []
         B = 1024
